@@ -125,6 +125,29 @@ type c13Scn struct {
 	HTLCs      []c13HTLC `json:"htlcs"`
 	JusticeAt  int32     `json:"justice_at"` // breach: block in which the justice tx is final
 	MaxBlocks  int       `json:"max_blocks"`
+	// Layout: HTLC k sits in output slot k on the commitment that confirms and in
+	// slot Layout[k] on every other commitment (nil: same slots everywhere). Real
+	// commitments order their outputs independently (BIP69 over different scripts
+	// and amounts), so the same output index means different HTLCs on different
+	// commitments.
+	Layout []int `json:"layout,omitempty"`
+}
+
+// confirmed is the commitment kind whose HTLC set is the confirmed one.
+func (s *c13Scn) confirmed() string {
+	switch s.Close {
+	case "local", "pending":
+		return s.Close
+	}
+	return "remote"
+}
+
+// slot is the output slot of HTLC j on commitment kind k.
+func (s *c13Scn) slot(k string, j int) int {
+	if k == s.confirmed() || len(s.Layout) != len(s.HTLCs) {
+		return j
+	}
+	return s.Layout[j]
 }
 
 func (s *c13Scn) number() {
@@ -133,11 +156,14 @@ func (s *c13Scn) number() {
 		if s.HTLCs[k].On == "" {
 			s.HTLCs[k].On = "all"
 		}
+		// Offered and received HTLCs are numbered independently (the two parties'
+		// counters), so ids collide across directions on purpose; they start at 11
+		// so that no id equals a log index (31..) or an output index (4..).
 		if s.HTLCs[k].In {
-			s.HTLCs[k].Idx = i
+			s.HTLCs[k].Idx = 11 + i
 			i++
 		} else {
-			s.HTLCs[k].Idx = o
+			s.HTLCs[k].Idx = 11 + o
 			o++
 		}
 	}
@@ -498,6 +524,37 @@ func (w *c13World) anomaly(s string) {
 	w.logf("    !! anomaly: %s", s)
 }
 
+// Every harness-owned dependency is keyed strictly by its documented key; a query
+// with a key that belongs to no HTLC of the scenario is recorded as an anomaly of
+// its own (the arbitrator is working with data of some other contract, or none).
+// All three helpers expect the world lock to be held.
+func (w *c13World) checkOffered(dep string, idx uint64) {
+	for _, h := range w.scn.HTLCs {
+		if !h.In && h.Idx == idx {
+			return
+		}
+	}
+	w.anomaly(fmt.Sprintf("unknown-offered-htlc-index:%s(%d)", dep, idx))
+}
+
+func (w *c13World) checkReceived(dep string, idx uint64) {
+	for _, h := range w.scn.HTLCs {
+		if h.In && h.Idx == idx {
+			return
+		}
+	}
+	w.anomaly(fmt.Sprintf("unknown-received-htlc-index:%s(%d)", dep, idx))
+}
+
+func (w *c13World) checkHash(dep string, hash lntypes.Hash) {
+	for _, h := range w.scn.HTLCs {
+		if c13HashOfPre(h.preimage()) == hash {
+			return
+		}
+	}
+	w.anomaly(fmt.Sprintf("unknown-payment-hash:%s(%x)", dep, hash[:4]))
+}
+
 // freeze parks the calling goroutine forever: it belongs to a process that died.
 func (w *c13World) freeze() {
 	<-w.never
@@ -578,15 +635,19 @@ func newC13World(scn c13Scn, verbose bool) (*c13World, error) {
 		tx.AddTxOut(&wire.TxOut{Value: 300_000, PkScript: c13P2WSH(k + "-to-remote")})
 		tx.AddTxOut(&wire.TxOut{Value: 330, PkScript: c13P2WSH(k + "-anchor-ours")})
 		tx.AddTxOut(&wire.TxOut{Value: 330, PkScript: c13P2WSH(k + "-anchor-theirs")})
+		// One output slot per HTLC of the scenario; which HTLC sits in which slot
+		// depends on the commitment (scn.slot). Dust and absent HTLCs leave a
+		// zero-value filler that nothing refers to.
+		slots := make([]*wire.TxOut, len(scn.HTLCs))
 		for j, h := range scn.HTLCs {
-			// Every HTLC gets an output slot so that output indexes are the same on
-			// every commitment; dust and absent HTLCs get a zero-value filler that
-			// nothing refers to.
 			v := int64(0)
 			if k != "revoked" && !h.Dust && scn.onCommit(h, k) {
 				v = int64(10_000 * (j + 1))
 			}
-			tx.AddTxOut(&wire.TxOut{Value: v, PkScript: c13P2WSH(fmt.Sprintf("%s-htlc-%d", k, j))})
+			slots[scn.slot(k, j)] = &wire.TxOut{Value: v, PkScript: c13P2WSH(fmt.Sprintf("%s-htlc-%d", k, j))}
+		}
+		for _, o := range slots {
+			tx.AddTxOut(o)
 		}
 		w.commits[k] = tx
 		w.tag(tx, "commit:"+k)
@@ -594,7 +655,7 @@ func newC13World(scn c13Scn, verbose bool) (*c13World, error) {
 		if k != "revoked" {
 			for j, h := range scn.HTLCs {
 				if !h.Dust && scn.onCommit(h, k) {
-					w.roles[wire.OutPoint{Hash: tx.TxHash(), Index: uint32(c13OutHTLC0 + j)}] = c13Role{kind: "htlc", commit: k, htlc: j}
+					w.roles[wire.OutPoint{Hash: tx.TxHash(), Index: uint32(c13OutHTLC0 + scn.slot(k, j))}] = c13Role{kind: "htlc", commit: k, htlc: j}
 				}
 			}
 		}
@@ -671,10 +732,10 @@ func (w *c13World) chanHTLC(j int, k string) channeldb.HTLC {
 		OutputIndex:   -1,
 		Incoming:      h.In,
 		HtlcIndex:     h.Idx,
-		LogIndex:      uint64(j),
+		LogIndex:      uint64(31 + j),
 	}
 	if !h.Dust {
-		e.OutputIndex = int32(c13OutHTLC0 + j)
+		e.OutputIndex = int32(c13OutHTLC0 + w.scn.slot(k, j))
 	}
 	return e
 }
@@ -742,11 +803,12 @@ func (w *c13World) commitRes(k string) *lnwallet.CommitOutputResolution {
 func (w *c13World) secondLevel(j int) *wire.MsgTx {
 	h := w.scn.HTLCs[j]
 	commit := w.commits["local"]
-	op := wire.OutPoint{Hash: commit.TxHash(), Index: uint32(c13OutHTLC0 + j)}
+	slot := c13OutHTLC0 + w.scn.slot("local", j)
+	op := wire.OutPoint{Hash: commit.TxHash(), Index: uint32(slot)}
 	tx := wire.NewMsgTx(2)
 	script := c13Script(fmt.Sprintf("local-htlc-%d", j), txscript.OP_DUP)
 	tx.AddTxIn(&wire.TxIn{PreviousOutPoint: op, Witness: wire.TxWitness{{}, c13Sig, c13Sig, {}, script}, Sequence: 1})
-	tx.AddTxOut(&wire.TxOut{Value: commit.TxOut[c13OutHTLC0+j].Value, PkScript: c13P2WSH(fmt.Sprintf("second-level-%d", j))})
+	tx.AddTxOut(&wire.TxOut{Value: commit.TxOut[slot].Value, PkScript: c13P2WSH(fmt.Sprintf("second-level-%d", j))})
 	if !h.In {
 		tx.LockTime = h.Exp
 	}
@@ -760,8 +822,9 @@ func (w *c13World) htlcResolutions(k string) *lnwallet.HtlcResolutions {
 		if h.Dust || !w.scn.onCommit(h, k) {
 			continue
 		}
-		op := wire.OutPoint{Hash: commit.TxHash(), Index: uint32(c13OutHTLC0 + j)}
-		htlcOut := commit.TxOut[c13OutHTLC0+j]
+		slot := c13OutHTLC0 + w.scn.slot(k, j)
+		op := wire.OutPoint{Hash: commit.TxHash(), Index: uint32(slot)}
+		htlcOut := commit.TxOut[slot]
 		if k == "local" {
 			second := w.secondLevel(j)
 			sd := &input.SignDetails{
@@ -1314,11 +1377,14 @@ func (s *c13Sweeper) UpdateParams(op wire.OutPoint, _ sweep.Params) (chan sweep.
 
 type c13Beacon struct{ n *c13Node }
 
-func (b *c13Beacon) SubscribeUpdates(lnwire.ShortChannelID, *channeldb.HTLC, *hop.Payload,
-	[]byte) (*WitnessSubscription, error) {
+func (b *c13Beacon) SubscribeUpdates(_ lnwire.ShortChannelID, htlc *channeldb.HTLC, _ *hop.Payload,
+	_ []byte) (*WitnessSubscription, error) {
 
 	b.n.enter()
 	defer b.n.leave()
+	if htlc != nil {
+		b.n.w.checkHash("SubscribeUpdates", htlc.RHash)
+	}
 	ch := make(chan lntypes.Preimage, 8)
 	b.n.preSubs = append(b.n.preSubs, ch)
 	return &WitnessSubscription{WitnessUpdates: ch, CancelSubscription: func() {}}, nil
@@ -1327,12 +1393,18 @@ func (b *c13Beacon) SubscribeUpdates(lnwire.ShortChannelID, *channeldb.HTLC, *ho
 func (b *c13Beacon) LookupPreimage(h lntypes.Hash) (lntypes.Preimage, bool) {
 	b.n.enter()
 	defer b.n.leave()
+	b.n.w.checkHash("LookupPreimage", h)
 	p, ok := b.n.w.knownPre[h]
 	return p, ok
 }
 
 func (b *c13Beacon) AddPreimages(ps ...lntypes.Preimage) error {
 	var evs []c13Event
+	b.n.enter()
+	for _, p := range ps {
+		b.n.w.checkHash("AddPreimages", p.Hash())
+	}
+	b.n.leave()
 	for _, p := range ps {
 		evs = append(evs, c13Event{K: "preimage", Pre: hex.EncodeToString(p[:])})
 	}
@@ -1406,6 +1478,9 @@ func (o *c13Onion) ReconstructHopIterator(r io.Reader, rHash []byte,
 	bi hop.ReconstructBlindingInfo) (hop.Iterator, error) {
 
 	o.n.enter()
+	var ph lntypes.Hash
+	copy(ph[:], rHash)
+	o.n.w.checkHash("ReconstructHopIterator", ph)
 	o.n.ident[c13Goid()] = "htlc-" + hex.EncodeToString(rHash[:6])
 	it, err := o.inner.ReconstructHopIterator(r, rHash, bi)
 	o.n.leave()
@@ -1414,8 +1489,9 @@ func (o *c13Onion) ReconstructHopIterator(r io.Reader, rHash []byte,
 
 type c13HtlcNotifier struct{ n *c13Node }
 
-func (h *c13HtlcNotifier) NotifyFinalHtlcEvent(models.CircuitKey, channeldb.FinalHtlcInfo) {
+func (h *c13HtlcNotifier) NotifyFinalHtlcEvent(key models.CircuitKey, _ channeldb.FinalHtlcInfo) {
 	h.n.enter()
+	h.n.w.checkReceived("NotifyFinalHtlcEvent", key.HtlcID)
 	h.n.leave()
 }
 
@@ -1450,6 +1526,19 @@ func (w *c13World) config(n *c13Node) ChannelArbitratorConfig {
 		},
 		DeliverResolutionMsg: func(msgs ...ResolutionMsg) error {
 			var evs []c13Event
+			n.enter()
+			for _, m := range msgs {
+				w.checkOffered("DeliverResolutionMsg", m.HtlcIndex)
+				if m.PreImage != nil {
+					// The settle must carry the preimage of that very HTLC.
+					for _, h := range w.scn.HTLCs {
+						if !h.In && h.Idx == m.HtlcIndex && h.preimage() != lntypes.Preimage(*m.PreImage) {
+							w.anomaly(fmt.Sprintf("settle-with-foreign-preimage:out%d", m.HtlcIndex))
+						}
+					}
+				}
+			}
+			n.leave()
 			for _, m := range msgs {
 				evs = append(evs, c13Event{K: "msg", Idx: m.HtlcIndex, Settle: m.PreImage != nil,
 					Comment: fmt.Sprintf("failure=%v", m.Failure != nil)})
@@ -1469,7 +1558,10 @@ func (w *c13World) config(n *c13Node) ChannelArbitratorConfig {
 		Sweeper:        &c13Sweeper{n: n},
 		Registry:       &c13RegistryImpl{n: n},
 		OnionProcessor: &c13Onion{n: n, inner: &mockOnionProcessor{}},
-		IsForwardedHTLC: func(lnwire.ShortChannelID, uint64) bool {
+		IsForwardedHTLC: func(_ lnwire.ShortChannelID, idx uint64) bool {
+			n.enter()
+			defer n.leave()
+			w.checkOffered("IsForwardedHTLC", idx)
 			return true
 		},
 		Clock: clock.NewTestClock(time.Unix(1_700_000_000, 0)),
@@ -1483,6 +1575,9 @@ func (w *c13World) config(n *c13Node) ChannelArbitratorConfig {
 			return false, nil
 		},
 		PutFinalHtlcOutcome: func(_ lnwire.ShortChannelID, id uint64, settled bool) error {
+			n.enter()
+			w.checkReceived("PutFinalHtlcOutcome", id)
+			n.leave()
 			return n.write("PutFinalHtlcOutcome", c13Event{K: "final", Idx: id, Settle: settled})
 		},
 		HtlcNotifier: &c13HtlcNotifier{n: n},
@@ -1532,7 +1627,11 @@ func (w *c13World) config(n *c13Node) ChannelArbitratorConfig {
 				IsInitiator:     true,
 			}, nil
 		},
-		FindOutgoingHTLCDeadline: func(channeldb.HTLC) fn.Option[int32] {
+		FindOutgoingHTLCDeadline: func(h channeldb.HTLC) fn.Option[int32] {
+			n.enter()
+			defer n.leave()
+			w.checkOffered("FindOutgoingHTLCDeadline", h.HtlcIndex)
+			w.checkHash("FindOutgoingHTLCDeadline", h.RHash)
 			return fn.None[int32]()
 		},
 	}
@@ -1553,9 +1652,10 @@ func (r *c13RegistryImpl) NotifyExitHopHtlc(lntypes.Hash, lnwire.MilliSatoshi, u
 
 func (r *c13RegistryImpl) HodlUnsubscribeAll(chan<- interface{}) {}
 
-func (r *c13RegistryImpl) LookupInvoice(context.Context, lntypes.Hash) (invoices.Invoice, error) {
+func (r *c13RegistryImpl) LookupInvoice(_ context.Context, h lntypes.Hash) (invoices.Invoice, error) {
 	r.n.enter()
 	defer r.n.leave()
+	r.n.w.checkHash("LookupInvoice", h)
 	return invoices.Invoice{}, invoices.ErrInvoiceNotFound
 }
 
